@@ -4,6 +4,8 @@ import re
 HEADER = '''package types
 
 import (
+	"unsafe"
+
 	"verifsk/ext"
 	"verifsk/ext2"
 )
@@ -45,7 +47,9 @@ TYPES = ["int", "int32", "int64", "uint8", "float64", "string", "bool", "MyInt",
          # pointers to distinct but convertible types (conversion must be spelled (*T)(x))
          "*MyInt", "*S3", "*ext.ID",
          # slices whose elements are pointers to convertible types / values of a package the setup file does not import
-         "[]*S3", "[]*MyInt", "ext.Box", "[]ext2.T", "ext2.Code"]
+         "[]*S3", "[]*MyInt", "ext.Box", "[]ext2.T", "ext2.Code",
+         # pointer to a predeclared named type, and the type everything pointer-like converts to
+         "*error", "unsafe.Pointer"]
 def main():
     n = len(TYPES)
     out = [HEADER, "type Src struct {\n"]
